@@ -52,6 +52,8 @@ type lcase struct {
 	// attempt waits LastSleepMs before it prints (it must still be running when the parked worker gets out).
 	SlowMs      int `json:"slow_ms"`
 	LastSleepMs int `json:"last_sleep_ms"`
+	// several steps / runs writing the SAME `stdout:` / `stderr:` file (shared.go)
+	Shared *sharedCase `json:"shared"`
 }
 
 // Pat is the position code: byte at position pos of stream strm in attempt att.
@@ -144,6 +146,9 @@ func killByDir(dir string) {
 }
 
 func runOne(c lcase) (res map[string]any) {
+	if c.Shared != nil {
+		return runShared(c)
+	}
 	res = map[string]any{"id": c.ID}
 	defer func() {
 		if r := recover(); r != nil {
